@@ -343,7 +343,7 @@ def routes_register : List (String × String) := [
 def fn_remember_Remember_Init : String := "func(ab *authboss.Authboss) error { r.Authboss = ab r.Events.After(authboss.EventAuth, r.RememberAfterAuth) r.Events.After(authboss.EventOAuth2, r.RememberAfterAuth) r.Events.After(authboss.EventRecoverEnd, r.AfterPasswordReset) return nil }"
 def fn_remember_Remember_RememberAfterAuth : String := "func(w http.ResponseWriter, req *http.Request, handled bool) (bool, error) { rmIntf := req.Context().Value(authboss.CTXKeyValues) if rmIntf == nil { return false, nil } else if rm, ok := rmIntf.(authboss.RememberValuer); !ok || !rm.GetShouldRemember() { return false, nil } user := r.Authboss.CurrentUserP(req) hash, token, err := GenerateToken(user.GetPID()) if err != nil { return false, err } storer := authboss.EnsureCanRemember(r.Authboss.Config.Storage.Server) if err = storer.AddRememberToken(req.Context(), user.GetPID(), hash); err != nil { return false, err } authboss.PutCookie(w, authboss.CookieRemember, token) return false, nil }"
 def fn_remember_Middleware : String := "func(ab *authboss.Authboss) func(http.Handler) http.Handler { return func(next http.Handler) http.Handler { return http.HandlerFunc(func(w http.ResponseWriter, r *http.Request) { if id, _ := ab.CurrentUserID(r); len(id) == 0 { if err := Authenticate(ab, w, &r); err != nil { } } next.ServeHTTP(w, r) }) } }"
-def fn_remember_Authenticate : String := "func(ab *authboss.Authboss, w http.ResponseWriter, req **http.Request) error { cookie, ok := authboss.GetCookie(*req, authboss.CookieRemember) if !ok { return nil } rawToken, err := base64.URLEncoding.DecodeString(cookie) if err != nil { authboss.DelCookie(w, authboss.CookieRemember) return nil } index := len(rawToken) - nNonceSize - 1 if index < 0 || rawToken[index] != ';' { authboss.DelCookie(w, authboss.CookieRemember) return nil } pid := string(rawToken[:index]) sum := sha512.Sum512(rawToken) hash := base64.StdEncoding.EncodeToString(sum[:]) storer := authboss.EnsureCanRemember(ab.Config.Storage.Server) err = storer.UseRememberToken((*req).Context(), pid, hash) switch { case err == authboss.ErrTokenNotFound: authboss.DelCookie(w, authboss.CookieRemember) return nil case err != nil: return err } hash, token, err := GenerateToken(pid) if err != nil { return err } if err = storer.AddRememberToken((*req).Context(), pid, hash); err != nil { return errors.Wrap(err, \"failed to save remember me token\") } *req = (*req).WithContext(context.WithValue((*req).Context(), authboss.CTXKeyPID, pid)) authboss.PutSession(w, authboss.SessionKey, pid) authboss.PutSession(w, authboss.SessionHalfAuthKey, \"true\") authboss.DelCookie(w, authboss.CookieRemember) authboss.PutCookie(w, authboss.CookieRemember, token) return nil }"
+def fn_remember_Authenticate : String := "func(ab *authboss.Authboss, w http.ResponseWriter, req **http.Request) error { cookie, ok := authboss.GetCookie(*req, authboss.CookieRemember) if !ok { return nil } rawToken, err := base64.URLEncoding.DecodeString(cookie) if err != nil { authboss.DelCookie(w, authboss.CookieRemember) return nil } index := len(rawToken) - nNonceSize - 1 if index < 0 || rawToken[index] != ';' { authboss.DelCookie(w, authboss.CookieRemember) return nil } pid := string(rawToken[:index]) sum := sha512.Sum512(rawToken) hash := base64.StdEncoding.EncodeToString(sum[:]) storer := authboss.EnsureCanRemember(ab.Config.Storage.Server) err = storer.UseRememberToken((*req).Context(), pid, hash) switch { case err == authboss.ErrTokenNotFound: authboss.DelCookie(w, authboss.CookieRemember) return nil case err != nil: return err } hash, token, err := GenerateToken(pid) if err != nil { return err } if err = storer.AddRememberToken((*req).Context(), pid, hash); err != nil { return errors.Wrap(err, \"failed to save remember me token\") } ctx := context.WithValue((*req).Context(), authboss.CTXKeyPID, pid) state, _ := ctx.Value(authboss.CTXKeySessionState).(authboss.ClientState) ctx = context.WithValue(ctx, authboss.CTXKeySessionState, halfAuthState{cs: state}) *req = (*req).WithContext(ctx) authboss.PutSession(w, authboss.SessionKey, pid) authboss.PutSession(w, authboss.SessionHalfAuthKey, \"true\") authboss.DelCookie(w, authboss.CookieRemember) authboss.PutCookie(w, authboss.CookieRemember, token) return nil }"
 def fn_remember_Remember_AfterPasswordReset : String := "func(w http.ResponseWriter, req *http.Request, handled bool) (bool, error) { user, err := r.Authboss.CurrentUser(req) if err != nil { return false, err } storer := authboss.EnsureCanRemember(r.Authboss.Config.Storage.Server) pid := user.GetPID() authboss.DelCookie(w, authboss.CookieRemember) return false, storer.DelRememberTokens(req.Context(), pid) }"
 def fn_remember_GenerateToken : String := "func(pid string) (hash string, token string, err error) { rawToken := make([]byte, nNonceSize+len(pid)+1) copy(rawToken, pid) rawToken[len(pid)] = ';' if _, err := io.ReadFull(rand.Reader, rawToken[len(pid)+1:]); err != nil { return \"\", \"\", errors.Wrap(err, \"failed to create remember me nonce\") } sum := sha512.Sum512(rawToken) return base64.StdEncoding.EncodeToString(sum[:]), base64.URLEncoding.EncodeToString(rawToken), nil }"
 def consts_remember : List (String × String) := [
